@@ -44,3 +44,22 @@ package validation
 //@ shallow
 //@ prop C16
 //@ at call SetRealClientIPParser assert[parser-only-in-reverse-proxy-mode] o.ReverseProxy
+
+// ------------------------------------------------------------------ C04 / C01: bearer verifiers for the extra JWT issuers check issuer and audience
+//@ func newVerifierFromJwtIssuer
+//@ prop C04 C01
+//@ at call NewProviderVerifier#0 assert[verifier-for-this-issuer-and-audience-with-issuer-check] arg(NewProviderVerifier#0, 1).IssuerURL == jwtIssuer.issuerURI
+//@     && arg(NewProviderVerifier#0, 1).ClientID == jwtIssuer.audience && !arg(NewProviderVerifier#0, 1).SkipIssuerVerification
+//@     && arg(NewProviderVerifier#0, 1).AudienceClaims == audienceClaims && arg(NewProviderVerifier#0, 1).ExtraAudiences == extraAudiences
+//@ at call NewProviderVerifier#1 assert[fallback-without-discovery-keeps-issuer-and-audience-checks] arg(NewProviderVerifier#1, 1).IssuerURL == jwtIssuer.issuerURI
+//@     && arg(NewProviderVerifier#1, 1).ClientID == jwtIssuer.audience && !arg(NewProviderVerifier#1, 1).SkipIssuerVerification
+//@     && arg(NewProviderVerifier#1, 1).AudienceClaims == audienceClaims && arg(NewProviderVerifier#1, 1).ExtraAudiences == extraAudiences
+//@     && arg(NewProviderVerifier#1, 1).SkipDiscovery && HasPrefix(arg(NewProviderVerifier#1, 1).JWKsURL, strings.TrimSuffix(jwtIssuer.issuerURI, "/"))
+//@ ensures[verifier-only-from-a-successfully-built-provider-verifier] ret1 == nil ==> ret0 == ret(Verifier)
+//@     && ((ret1(NewProviderVerifier#0) == nil && recv(Verifier) == ret0(NewProviderVerifier#0))
+//@         || (ret1(NewProviderVerifier#1) == nil && recv(Verifier) == ret0(NewProviderVerifier#1)))
+
+//@ func parseJwtIssuers
+//@ prop C04
+//@ loop 0 invariant[bounds] rangeindex >= -1
+//@ at call append#1 assert[issuer-is-the-part-before-the-first-equals-sign-audience-the-rest] len(components) >= 2
